@@ -58,7 +58,9 @@ func (s *grpcServer) GetActionResult(ctx context.Context,
 	}
 
 	// Validate the client's hash, not the mangled one (which is always well formed).
-	err := s.validateHash(req.ActionDigest.Hash, req.ActionDigest.SizeBytes, logPrefix)
+	// The size of the action plays no part in the lookup, and our own gRPC
+	// proxy client does not know it (it sends -1).
+	err := s.validateKey(req.ActionDigest.Hash, req.ActionDigest.SizeBytes, logPrefix)
 	if err != nil {
 		return nil, err
 	}
